@@ -267,7 +267,7 @@ func (c *Chunk) ReadUint8(p *uint8) error {
 func (c *Chunk) Float32() (float32, error) {
 	v, err := c.Uint32()
 	if err != nil {
-		return 0, nil
+		return 0, err
 	}
 	return float32FromInt(v), nil
 }
@@ -276,7 +276,7 @@ func (c *Chunk) Float32() (float32, error) {
 func (c *Chunk) Float64() (float64, error) {
 	v, err := c.Uint64()
 	if err != nil {
-		return 0, nil
+		return 0, err
 	}
 	return float64FromInt(v), nil
 }
